@@ -175,7 +175,7 @@ Ltac zb := repeat match goal with
   | H : (_ =? _) = false |- _ => apply Z.eqb_neq in H
   end.
 Ltac prj := cbn [fst snd proposal oracles by_bridger by_ext last_total last_obs last_by atts pending
-                 applied effects vlog refresh with_oracles] in *.
+                 applied effects vlog eb refresh with_oracles with_eb] in *.
 
 (* ------------------------------------------------------------------ *)
 (* frame facts: what each operation leaves alone                        *)
@@ -204,6 +204,26 @@ Lemma mature_core : forall s, tally_core s (mature s) /\ last_by (mature s) = la
   /\ pending (mature s) = pending s /\ effects (mature s) = effects s /\ last_total (mature s) = last_total s
   /\ by_bridger (mature s) = by_bridger s.
 Proof. intros. unfold mature, tally_core. prj. auto 10. Qed.
+(* the operations that only touch the end-blocker inputs *)
+Definition frame_all (s s' : st) : Prop :=
+  tally_core s s' /\ last_by s' = last_by s /\ pending s' = pending s /\ effects s' = effects s /\
+  by_bridger s' = by_bridger s /\ by_ext s' = by_ext s /\ proposal s' = proposal s.
+Lemma with_eb_frame : forall s e, frame_all s (with_eb s e) /\ oracles (with_eb s e) = oracles s /\ last_total (with_eb s e) = last_total s.
+Proof. intros. unfold frame_all, tally_core. prj. auto 15. Qed.
+Lemma frame_all_refl : forall s, frame_all s s.
+Proof. intros. unfold frame_all, tally_core. auto 15. Qed.
+Lemma confirm_core : forall s k key ext,
+  frame_all s (fst (confirm s k key ext)) /\ oracles (fst (confirm s k key ext)) = oracles s /\
+  last_total (fst (confirm s k key ext)) = last_total s.
+Proof. intros. unfold confirm. dm; prj; (split; [apply frame_all_refl|auto]) || apply with_eb_frame. Qed.
+Lemma add_batch_core : forall s,
+  frame_all s (fst (add_batch s)) /\ oracles (fst (add_batch s)) = oracles s /\ last_total (fst (add_batch s)) = last_total s.
+Proof. intros. unfold add_batch. dm; prj; (split; [apply frame_all_refl|auto]) || apply with_eb_frame. Qed.
+Lemma add_bcall_core : forall s,
+  frame_all s (fst (add_bcall s)) /\ oracles (fst (add_bcall s)) = oracles s /\ last_total (fst (add_bcall s)) = last_total s.
+Proof. intros. unfold add_bcall. dm; prj; (split; [apply frame_all_refl|auto]) || apply with_eb_frame. Qed.
+Lemma end_block_core : forall s b, frame_all s (fst (end_block s b)).
+Proof. intros. unfold end_block. dm; prj; unfold frame_all, tally_core; prj; auto 15. Qed.
 Lemma edit_core : forall s o b, tally_core s (fst (edit_bridger s o b)) /\ last_by (fst (edit_bridger s o b)) = last_by s
   /\ pending (fst (edit_bridger s o b)) = pending s /\ effects (fst (edit_bridger s o b)) = effects s.
 Proof. intros. unfold edit_bridger, tally_core. dm; prj; auto 10. Qed.
@@ -286,6 +306,11 @@ Proof.
   - apply unbond_core.
   - apply edit_core.
   - apply mature_core.
+  - apply confirm_core.
+  - apply add_batch_core.
+  - apply add_bcall_core.
+  - apply with_eb_frame.
+  - apply end_block_core.
 Qed.
 
 (* in a goal about (step c s x) with x not a vote: bring the frame facts into the context *)
@@ -586,6 +611,15 @@ Proof.
   - induction l as [|[k o] r IH]; [reflexivity|]. cbn [map fst snd]. rewrite !online_power_cons, IH. reflexivity.
 Qed.
 
+Lemma apply_slash_facts : forall res (l : list (Z * oracle)),
+  map fst (apply_slash res l) = map fst l /\ (stakes_ok l -> stakes_ok (apply_slash res l)).
+Proof.
+  intros res l. unfold apply_slash. split.
+  - rewrite map_map. apply map_ext. intros [k o]. reflexivity.
+  - intros S k o H. apply in_map_iff in H. destruct H as [[k' o'] [E H]]. cbn [fst snd] in E.
+    destruct (eb_find k' res); inversion E; subst; cbn; eapply S; eauto.
+Qed.
+
 Lemma inv_total_step : forall c s x, 0 <= c_threshold c -> inv_total s -> inv_total (fst (step c s x)).
 Proof.
   intros c s x Hc [N [S T]]. destruct x; cbn [step].
@@ -635,6 +669,15 @@ Proof.
   - (* time passes *)
     unfold mature, inv_total; prj. destruct (mature_map_facts (oracles s)) as [A [B C]].
     rewrite A, C. repeat split; auto.
+  - destruct (confirm_core s kind key ext) as [_ [A B]]. unfold inv_total. rewrite A, B. auto.
+  - destruct (add_batch_core s) as [_ [A B]]. unfold inv_total. rewrite A, B. auto.
+  - destruct (add_bcall_core s) as [_ [A B]]. unfold inv_total. rewrite A, B. auto.
+  - unfold inv_total; prj; auto.
+  - (* the end blocker: slashing writes back records with the same keys and stakes; it refreshes the total whenever
+       it slashed, and so does the oracle set request *)
+    unfold end_block. destruct (EB.slashing slash_args0 (xstate_of s) (e_height (eb s))) as [r|]; prj; [|unfold inv_total; auto].
+    destruct (apply_slash_facts (EB.r_oracles r) (oracles s)) as [A B].
+    unfold inv_total; prj. destruct (EB.r_any r), newset; repeat split; auto; try rewrite A; auto; lia.
 Qed.
 
 Lemma inv_total_reach : forall c h, 0 <= c_threshold c -> inv_total (run c init h).
@@ -762,6 +805,18 @@ Proof.
   - (* time passes *)
     intros b' o' G. unfold mature in *. prj. destruct (IH _ _ G) as [r0 [Gr Br]].
     rewrite (aget_map_val Z.eqb zeqb_spec (fun p => matured (snd p))), Gr. eexists; split; eauto.
+  - destruct (confirm_core s kind key ext) as [[_ [_ [_ [_ [A _]]]]] [B _]]. unfold inv_bridger. rewrite A, B. exact IH.
+  - destruct (add_batch_core s) as [[_ [_ [_ [_ [A _]]]]] [B _]]. unfold inv_bridger. rewrite A, B. exact IH.
+  - destruct (add_bcall_core s) as [[_ [_ [_ [_ [A _]]]]] [B _]]. unfold inv_bridger. rewrite A, B. exact IH.
+  - exact IH.
+  - (* end blocker: slashing keeps every record's bridger *)
+    unfold end_block. destruct (EB.slashing slash_args0 (xstate_of s) (e_height (eb s))) as [r|]; prj; [|exact IH].
+    intros b' o' G. prj. destruct (IH _ _ G) as [r0 [Gr Br]].
+    destruct (EB.r_any r); [|eauto].
+    unfold apply_slash.
+    rewrite (aget_map_val Z.eqb zeqb_spec
+               (fun p => match eb_find (fst p) (EB.r_oracles r) with Some x => slashed_rec (snd p) x | None => snd p end)), Gr.
+    eexists; split; eauto. cbn [fst snd]. destruct (eb_find o' (EB.r_oracles r)); auto.
 Qed.
 
 Theorem vote_admission : forall c h b n cl park ms,
@@ -808,6 +863,11 @@ Proof.
   - pose proof (unbond_core c s o) as [[A _] [B C]]. auto.
   - pose proof (edit_core s o b) as [[A _] [_ [B C]]]. auto.
   - pose proof (mature_core s) as [[A _] [_ [B [C _]]]]. auto.
+  - pose proof (confirm_core s kind key ext) as [[[A _] [_ [B [C _]]]] _]. auto.
+  - pose proof (add_batch_core s) as [[[A _] [_ [B [C _]]]] _]. auto.
+  - pose proof (add_bcall_core s) as [[[A _] [_ [B [C _]]]] _]. auto.
+  - prj. auto.
+  - pose proof (end_block_core s newset) as [[A _] [_ [B [C _]]]]. auto.
 Qed.
 
 Lemma inv_exec_step : forall c s x, inv_exec s -> inv_exec (fst (step c s x)).
@@ -878,7 +938,8 @@ Theorem exec_not_reentrant : forall s n s1 ok,
   exec_begin s1 n = None /\ exec s1 n ok = (s1, Err E_NoClaim) /\
   (fst (exec s n true)) = {| proposal := proposal s1; oracles := oracles s1; by_bridger := by_bridger s1; by_ext := by_ext s1;
                             last_total := last_total s1; last_obs := last_obs s1; last_by := last_by s1; atts := atts s1;
-                            pending := pending s1; applied := applied s1; effects := effects s1 ++ [n]; vlog := vlog s1 |}.
+                            pending := pending s1; applied := applied s1; effects := effects s1 ++ [n]; vlog := vlog s1;
+                            eb := eb s1 |}.
 Proof.
   intros s n s1 ok H. unfold exec_begin in H. destruct (aget Z.eqb n (pending s)) eqn:G; [|discriminate].
   inversion H; subst s1; clear H. unfold exec_begin, exec. prj. rewrite (aget_adel_same Z.eqb), G. auto.
@@ -1082,6 +1143,11 @@ Proof.
     rewrite (aget_adel_other Z.eqb zeqb_spec) by assumption. eauto.
   - destruct (edit_core s o b) as [[_ [A _]] [B _]]. unfold inv_votes. rewrite A, B. exact IH.
   - cbn [fst]. destruct (mature_core s) as [[_ [A _]] [B _]]. unfold inv_votes. rewrite A, B. exact IH.
+  - destruct (confirm_core s kind key ext) as [[[_ [A _]] [B _]] _]. unfold inv_votes. rewrite A, B. exact IH.
+  - destruct (add_batch_core s) as [[[_ [A _]] [B _]] _]. unfold inv_votes. rewrite A, B. exact IH.
+  - destruct (add_bcall_core s) as [[[_ [A _]] [B _]] _]. unfold inv_votes. rewrite A, B. exact IH.
+  - exact IH.
+  - destruct (end_block_core s newset) as [[_ [A _]] [B _]]. unfold inv_votes. rewrite A, B. exact IH.
 Qed.
 
 Lemma guarded_weaken : forall c (safe1 safe2 : st -> op -> Prop),
@@ -1301,6 +1367,10 @@ Proof.
     unfold safe_cursor in SF. destruct SF as [SF|SF]; [congruence|]. cbn [no_unbond_of] in SF.
     apply (aget_adel_other Z.eqb zeqb_spec). exact SF.
   - destruct (edit_core s o b) as [[_ [_ [_ A]]] [B _]]. rewrite A, B. auto.
+  - destruct (confirm_core s kind key ext) as [[[_ [_ [_ A]]] [B _]] _]. rewrite A, B. auto.
+  - destruct (add_batch_core s) as [[[_ [_ [_ A]]] [B _]] _]. rewrite A, B. auto.
+  - destruct (add_bcall_core s) as [[[_ [_ [_ A]]] [B _]] _]. rewrite A, B. auto.
+  - destruct (end_block_core s newset) as [[_ [_ [_ A]]] [B _]]. rewrite A, B. auto.
 Qed.
 
 Lemma inv_incr_step : forall w c s x, inv_incr w s -> safe_cursor c w s x -> inv_incr w (fst (step c s x)).
@@ -1503,3 +1573,326 @@ Theorem example_history :
 Proof.
   split; [cbn; tauto|]. vm_compute. repeat split; try reflexivity. eexists. repeat split; reflexivity.
 Qed.
+
+(* ------------------------------------------------------------------ *)
+(* the end blocker's slashing phase (M_EndBlock.slashing) inside this model *)
+(* ------------------------------------------------------------------ *)
+(* relation between the oracle list before and after (part of) the slashing phase: same ids, nobody comes online,
+   start heights untouched *)
+Definition eb_rel (l l' : list EB.oracle) : Prop :=
+  forall j, match eb_find j l, eb_find j l' with
+            | Some x, Some x' => (EB.o_online x' = true -> EB.o_online x = true /\ EB.o_slash_times x' = EB.o_slash_times x)
+                                 /\ EB.o_start x' = EB.o_start x
+            | None, None => True
+            | _, _ => False
+            end.
+Definition eb_off (id : Z) (l : list EB.oracle) : Prop :=
+  exists o, eb_find id l = Some o /\ EB.o_online o = false.
+
+Lemma eb_rel_refl : forall l, eb_rel l l.
+Proof. intros l j. destruct (eb_find j l); auto. Qed.
+
+Lemma eb_rel_trans : forall a b c, eb_rel a b -> eb_rel b c -> eb_rel a c.
+Proof.
+  intros a b c H1 H2 j. specialize (H1 j). specialize (H2 j).
+  destruct (eb_find j a), (eb_find j b), (eb_find j c); try tauto.
+  destruct H1 as [A1 B1], H2 as [A2 B2]. split; [|congruence].
+  intro O. destruct (A2 O) as [O2 T2]. destruct (A1 O2) as [O1 T1]. split; [auto | congruence].
+Qed.
+
+Lemma eb_off_rel : forall id l l', eb_rel l l' -> eb_off id l -> eb_off id l'.
+Proof.
+  intros id l l' R [o [F O]]. specialize (R id). rewrite F in R.
+  destruct (eb_find id l') as [o'|] eqn:F'; [|contradiction].
+  exists o'. split; auto. destruct R as [R _]. destruct (EB.o_online o'); auto. destruct (R eq_refl) as [R1 _].
+  rewrite R1 in O. discriminate.
+Qed.
+
+Lemma slash_in_spec : forall id h l l' b, EB.slash_in id h l = Some (l', b) -> eb_rel l l' /\ eb_off id l'.
+Proof.
+  intros id h l. induction l as [|o r IH]; cbn [EB.slash_in]; intros l' b H; [discriminate|].
+  destruct (EB.o_id o =? id) eqn:E.
+  - destruct (EB.o_online o) eqn:On; inversion H; subst; clear H.
+    + split.
+      * intro j. cbn [eb_find EB.o_id]. destruct (EB.o_id o =? j) eqn:Ej.
+        -- cbn. split; [discriminate | reflexivity].
+        -- destruct (eb_find j r); auto.
+      * eexists. cbn [eb_find EB.o_id]. rewrite E. split; reflexivity.
+    + split; [apply eb_rel_refl|]. exists o. cbn [eb_find]. rewrite E. auto.
+  - destruct (EB.slash_in id h r) as [[r' b']|] eqn:S; [|discriminate]. inversion H; subst; clear H.
+    destruct (IH _ _ eq_refl) as [R O]. split.
+    + intro j. cbn [eb_find]. destruct (EB.o_id o =? j); [auto | apply R].
+    + destruct O as [o' [F O']]. exists o'. cbn [eb_find]. rewrite E. auto.
+Qed.
+
+Lemma slash_oracle_spec : forall id h s s', EB.slash_oracle EB.ArgOracleAddress id h s = EB.Ok s' ->
+  eb_rel (fst s) (fst s') /\ eb_off id (fst s').
+Proof.
+  intros id h s s' H. unfold EB.slash_oracle in H.
+  destruct (EB.slash_in id h (fst s)) as [[l' b]|] eqn:S; [|discriminate].
+  destruct (slash_in_spec _ _ _ _ _ S). destruct b; inversion H; subst; cbn [fst]; auto.
+Qed.
+
+Definition must_confirm (x : EB.obj) (o : EB.oracle) : Prop :=
+  (EB.ob_height x <? EB.o_start o) = false /\ EB.memZ (EB.o_id o) (EB.ob_confirms x) = false.
+
+Lemma slash_missing_spec : forall h x snap s sl s' sl',
+  EB.slash_missing EB.ArgOracleAddress h x snap s sl = EB.Ok (s', sl') ->
+  eb_rel (fst s) (fst s') /\ (sl = true -> sl' = true) /\
+  (forall o, In o snap -> must_confirm x o -> eb_off (EB.o_id o) (fst s') /\ sl' = true).
+Proof.
+  intros h x snap. induction snap as [|o r IH]; cbn [EB.slash_missing]; intros s sl s' sl' H.
+  - inversion H; subst. split; [apply eb_rel_refl|]. split; auto. intros o [].
+  - destruct (EB.ob_height x <? EB.o_start o) eqn:E1.
+    + destruct (IH _ _ _ _ H) as [R [F A]]. split; auto. split; auto.
+      intros o' [D|D] [M1 M2]; [subst; congruence | apply A; [auto | split; auto]].
+    + destruct (EB.memZ (EB.o_id o) (EB.ob_confirms x)) eqn:E2.
+      * destruct (IH _ _ _ _ H) as [R [F A]]. split; auto. split; auto.
+        intros o' [D|D] [M1 M2]; [subst; congruence | apply A; [auto | split; auto]].
+      * destruct (EB.slash_oracle EB.ArgOracleAddress (EB.o_id o) h s) as [s1|] eqn:S; [|discriminate].
+        destruct (slash_oracle_spec _ _ _ _ S) as [R1 O1].
+        destruct (IH _ _ _ _ H) as [R [F A]]. split; [eapply eb_rel_trans; eauto|]. split; [intros _; apply F; reflexivity|].
+        intros o' [D|D] M.
+        -- subst o'. split; [eapply eb_off_rel; eauto | apply F; reflexivity].
+        -- apply A; auto.
+Qed.
+
+Lemma slash_objs_spec : forall h xs snap s cur sl s' cur' sl',
+  EB.slash_objs EB.ArgOracleAddress h xs snap s cur sl = EB.Ok (s', cur', sl') ->
+  eb_rel (fst s) (fst s') /\ (sl = true -> sl' = true) /\
+  (forall x o, In x xs -> In o snap -> must_confirm x o -> eb_off (EB.o_id o) (fst s') /\ sl' = true).
+Proof.
+  intros h xs. induction xs as [|x r IH]; cbn [EB.slash_objs]; intros snap s cur sl s' cur' sl' H.
+  - inversion H; subst. split; [apply eb_rel_refl|]. split; auto. intros x o [].
+  - destruct (EB.slash_missing EB.ArgOracleAddress h x snap s sl) as [[s1 sl1]|] eqn:S; [|discriminate].
+    destruct (slash_missing_spec _ _ _ _ _ _ _ S) as [R1 [F1 A1]].
+    destruct (IH _ _ _ _ _ _ _ H) as [R [F A]].
+    split; [eapply eb_rel_trans; eauto|]. split; [auto|].
+    intros x' o [D|D] Ho M.
+    + subst x'. destruct (A1 o Ho M) as [O T]. split; [eapply eb_off_rel; eauto | auto].
+    + eapply A; eauto.
+Qed.
+
+(* Keeper.slashing: every online oracle that had to confirm one of the selected objects and did not is offline
+   afterwards, the "something was slashed" flag is up, nobody came online *)
+Lemma slashing_spec : forall xs h r,
+  EB.slashing slash_args0 xs h = EB.Ok r ->
+  eb_rel (EB.oracles xs) (EB.r_oracles r) /\
+  (EB.window xs < h ->
+   forall x o, In x (EB.unslashed_osets xs h) \/ In x (EB.unslashed_batches xs h) \/ In x (EB.unslashed_bcalls xs h) ->
+               In o (filter EB.o_online (EB.oracles xs)) -> must_confirm x o ->
+               eb_off (EB.o_id o) (EB.r_oracles r) /\ EB.r_any r = true).
+Proof.
+  intros xs h r H. unfold EB.slashing in H. destruct (h <=? EB.window xs) eqn:W.
+  - inversion H; subst; cbn. split; [apply eb_rel_refl|]. intro L. apply Z.leb_le in W. lia.
+  - cbn [EB.sa_oracle_set EB.sa_batch EB.sa_bridge_call slash_args0] in H.
+    destruct (EB.slash_objs _ h (EB.unslashed_osets xs h) _ _ _ false) as [[[s1 c1] b1]|] eqn:S1; [|discriminate].
+    destruct (EB.slash_objs _ h (EB.unslashed_batches xs h) _ s1 _ false) as [[[s2 c2] b2]|] eqn:S2; [|discriminate].
+    destruct (EB.slash_objs _ h (EB.unslashed_bcalls xs h) _ s2 _ false) as [[[s3 c3] b3]|] eqn:S3; [|discriminate].
+    inversion H; subst; clear H. cbn [EB.r_oracles EB.r_any].
+    destruct (slash_objs_spec _ _ _ _ _ _ _ _ _ S1) as [R1 [_ A1]].
+    destruct (slash_objs_spec _ _ _ _ _ _ _ _ _ S2) as [R2 [_ A2]].
+    destruct (slash_objs_spec _ _ _ _ _ _ _ _ _ S3) as [R3 [_ A3]].
+    cbn [fst] in *. split; [eapply eb_rel_trans; [eapply eb_rel_trans|]; eauto|].
+    intros _ x o [I|[I|I]] Ho M.
+    + destruct (A1 x o I Ho M) as [O T]. subst. split; [|reflexivity].
+      apply (eb_off_rel _ (fst s1)); [eapply eb_rel_trans; [exact R2 | exact R3] | exact O].
+    + destruct (A2 x o I Ho M) as [O T]. subst. split; [|apply orb_true_iff; left; apply orb_true_iff; right; reflexivity].
+      apply (eb_off_rel _ (fst s2)); [exact R3 | exact O].
+    + destruct (A3 x o I Ho M) as [O T]. subst. split; [exact O | apply orb_true_iff; right; reflexivity].
+Qed.
+
+Lemma eb_find_to_eb : forall j (os : list (Z * oracle)),
+  eb_find j (map to_eb os) = match aget Z.eqb j os with Some r => Some (to_eb (j, r)) | None => None end.
+Proof.
+  intros j os. induction os as [|[k r] l IH]; cbn [map eb_find aget]; auto.
+  unfold to_eb at 1. cbn [EB.o_id fst]. rewrite Z.eqb_sym. destruct (j =? k) eqn:E; auto.
+  apply Z.eqb_eq in E. subst. reflexivity.
+Qed.
+
+(* what a (successful) end-block step does to the oracle records, the total and the end-blocker inputs *)
+Theorem end_block_effect : forall s newset s',
+  end_block s newset = (s', Ok) ->
+  frame_all s s' /\ e_height (eb s') = e_height (eb s) + 1 /\
+  (* nobody comes online, stakes / bridgers are untouched, no record appears or disappears *)
+  (forall o, match aget Z.eqb o (oracles s), aget Z.eqb o (oracles s') with
+             | Some r, Some r' => o_stake r' = o_stake r /\ o_bridger r' = o_bridger r /\ o_ext r' = o_ext r /\
+                                  (o_online r' = true -> o_online r = true /\ o_slash r' = o_slash r)
+             | None, None => True
+             | _, _ => False
+             end) /\
+  (* the total is either untouched together with the records, or freshly recomputed *)
+  ((oracles s' = oracles s /\ last_total s' = last_total s) \/ last_total s' = online_power (oracles s')).
+Proof.
+  intros s newset s' H. pose proof (end_block_core s newset) as Fr. rewrite H in Fr. cbn [fst] in Fr.
+  split; [exact Fr|]. unfold end_block in H.
+  destruct (EB.slashing slash_args0 (xstate_of s) (e_height (eb s))) as [r|] eqn:S; [|discriminate].
+  inversion H; subst; clear H. prj. cbn [e_height]. split; [reflexivity|].
+  destruct (slashing_spec _ _ _ S) as [R _]. split.
+  - intro o. destruct (EB.r_any r).
+    + unfold apply_slash.
+      rewrite (aget_map_val Z.eqb zeqb_spec
+                 (fun p => match eb_find (fst p) (EB.r_oracles r) with Some x => slashed_rec (snd p) x | None => snd p end)).
+      destruct (aget Z.eqb o (oracles s)) as [r0|] eqn:G; auto. cbn [fst snd].
+      specialize (R o). cbn [xstate_of EB.oracles] in R. rewrite eb_find_to_eb, G in R.
+      destruct (eb_find o (EB.r_oracles r)) as [x|] eqn:F; [|contradiction].
+      cbn [slashed_rec o_stake o_bridger o_ext o_online o_slash]. repeat split; auto;
+        destruct R as [R _]; apply R in H; cbn in H; tauto.
+    + destruct (aget Z.eqb o (oracles s)); auto.
+  - destruct (EB.r_any r), newset; auto.
+Qed.
+
+Lemma memZ_notin : forall x l, ~ In x l -> EB.memZ x l = false.
+Proof.
+  intros x l H. unfold EB.memZ. destruct (existsb (Z.eqb x) l) eqn:E; auto.
+  apply existsb_exists in E. destruct E as [y [I E]]. apply Z.eqb_eq in E. subst. contradiction.
+Qed.
+
+(* the objects the slashing phase of this block looks at (converted confirm sets: oracle ids) *)
+Definition due_objects (s : st) (x : EB.obj) : Prop :=
+  let xs := xstate_of s in let h := e_height (eb s) in
+  In x (EB.unslashed_osets xs h) \/ In x (EB.unslashed_batches xs h) \/ In x (EB.unslashed_bcalls xs h).
+
+(* a real end-block step takes every online oracle offline that had to confirm a due object (it was started no later
+   than the object's height) and did not; the recorded total is recomputed in the same step *)
+Theorem end_block_slashes_nonconfirmers : forall s newset s' x o rec,
+  end_block s newset = (s', Ok) ->
+  e_window (eb s) < e_height (eb s) ->
+  due_objects s x ->
+  aget Z.eqb o (oracles s) = Some rec -> o_online rec = true ->
+  o_start rec <= EB.ob_height x -> ~ In o (EB.ob_confirms x) ->
+  (exists rec', aget Z.eqb o (oracles s') = Some rec' /\ o_online rec' = false /\ o_stake rec' = o_stake rec) /\
+  last_total s' = online_power (oracles s').
+Proof.
+  intros s newset s' x o rec H W D G On St NC. unfold end_block in H.
+  destruct (EB.slashing slash_args0 (xstate_of s) (e_height (eb s))) as [r|] eqn:S; [|discriminate].
+  destruct (slashing_spec _ _ _ S) as [_ A].
+  assert (Ho : In (to_eb (o, rec)) (filter EB.o_online (EB.oracles (xstate_of s)))).
+  { apply filter_In. split; [|exact On]. cbn [xstate_of EB.oracles]. apply in_map. apply (aget_In Z.eqb zeqb_spec). exact G. }
+  assert (M : must_confirm x (to_eb (o, rec))).
+  { split; cbn [to_eb EB.o_start EB.o_id fst snd]; [apply Z.ltb_ge; exact St | apply memZ_notin; exact NC]. }
+  destruct (A W x (to_eb (o, rec)) D Ho M) as [[x' [F Off]] Any]. cbn [to_eb EB.o_id fst] in F.
+  inversion H; subst; clear H. prj. rewrite Any. split.
+  - unfold apply_slash.
+    rewrite (aget_map_val Z.eqb zeqb_spec
+               (fun p => match eb_find (fst p) (EB.r_oracles r) with Some y => slashed_rec (snd p) y | None => snd p end)), G.
+    cbn [fst snd]. rewrite F. eexists. split; [reflexivity|]. cbn. auto.
+  - destruct newset; reflexivity.
+Qed.
+
+(* consequence with the admission theorem: such an oracle's claims are refused from the next block on
+   (until it pays its slash amount through AddDelegate) *)
+Theorem slashed_oracle_cannot_vote : forall c s newset s' x o rec b n cl park ms,
+  end_block s newset = (s', Ok) ->
+  e_window (eb s) < e_height (eb s) -> due_objects s x ->
+  aget Z.eqb o (oracles s) = Some rec -> o_online rec = true ->
+  o_start rec <= EB.ob_height x -> ~ In o (EB.ob_confirms x) ->
+  aget Z.eqb b (by_bridger s') = Some o ->
+  snd (vote c s' b n cl park ms) <> Ok.
+Proof.
+  intros c s newset s' x o rec b n cl park ms H W D G On St NC Hb V.
+  destruct (end_block_slashes_nonconfirmers _ _ _ _ _ _ H W D G On St NC) as [[rec' [G' [Off _]]] _].
+  destruct (vote_accept_online _ _ _ _ _ _ _ V) as [o2 [r2 [B2 [O2 [On2 _]]]]].
+  rewrite Hb in B2. inversion B2; subst. rewrite G' in O2. inversion O2; subst. congruence.
+Qed.
+
+(* non-vacuity of the end-block theorems: signed window 2; oracle set 1 is created at height 1 and confirmed by
+   oracles 0 and 1 only (a repeated and a stray confirmation are refused); the end blocker of height 4 takes
+   oracle 2 offline and recomputes the total; oracle 2's next claim is refused, oracle 1's is accepted *)
+Definition h_endblock : list op :=
+  [GovSet [0; 1; 2]; Bond 0 0 0 (fx 20000); Bond 1 1 1 (fx 20000); Bond 2 2 2 (fx 30000);
+   SetWindow 2; EndBlock true; Confirm 0 1 0; Confirm 0 1 1; Confirm 0 1 1; Confirm 0 7 2;
+   EndBlock false; EndBlock false; EndBlock true].
+
+Theorem example_endblock :
+  let s := run cfg0 init h_endblock in
+  map (fun p => (fst p, o_online (snd p), o_slash (snd p))) (oracles s) = [(2, false, 1); (1, true, 0); (0, true, 0)] /\
+  last_total s = 400 /\ online_power (oracles s) = 400 /\ e_last_oset (eb s) = 1 /\ e_height (eb s) = 5 /\
+  map EB.ob_key (e_osets (eb s)) = [1; 2] /\
+  snd (step cfg0 s (Vote 2 1 1 true [])) = Err E_Offline /\ snd (step cfg0 s (Vote 1 1 1 true [])) = Ok.
+Proof. vm_compute. repeat split; reflexivity. Qed.
+
+(* without Unbond-guard: the repaired code that also has no cursor lift — consecutive nonces for every history *)
+Theorem votes_contiguous_fixed : forall c h w,
+  c_unbond_del c = false -> c_cursor_clamp c = false ->
+  consec (nonces_of w (vlog (run c init h))) /\ NoDup (nonces_of w (vlog (run c init h))).
+Proof.
+  intros c h w F1 F2.
+  assert (I : inv_contig w (run c init h)).
+  { apply (run_inv_guarded (inv_contig w) (safe_cursor c w) c).
+    - intros. apply inv_contig_step; assumption.
+    - split; [exact Logic.I | intro E; exfalso; apply E; reflexivity].
+    - apply guarded_all. intros s x. left. exact F1. }
+  destruct I as [C _]. split; auto. apply consec_NoDup. exact C.
+Qed.
+
+(* ------------------------------------------------------------------ *)
+(* C02: the bar in terms of STAKE (power = stake / 10^20, truncated, per oracle) *)
+(* ------------------------------------------------------------------ *)
+Definition U : Z := power_reduction.
+
+Lemma power_stake_bounds : forall o, 0 <= o_stake o -> power o * U <= o_stake o < (power o + 1) * U.
+Proof.
+  intros o H. unfold power, U, power_reduction.
+  pose proof (Z.quot_rem' (o_stake o) 100000000000000000000) as Q.
+  pose proof (Z.rem_bound_pos (o_stake o) 100000000000000000000 H ltac:(lia)). lia.
+Qed.
+
+Definition ostake (o : oracle) : Z := if o_online o then o_stake o else 0.
+Fixpoint online_stake (l : list (Z * oracle)) : Z :=
+  match l with [] => 0 | (_, o) :: r => ostake o + online_stake r end.
+Fixpoint online_count (l : list (Z * oracle)) : Z :=
+  match l with [] => 0 | (_, o) :: r => (if o_online o then 1 else 0) + online_count r end.
+Definition vstake (os : list (Z * oracle)) (v : Z) : Z :=
+  match aget Z.eqb v os with Some o => o_stake o | None => 0 end.
+Definition vote_stake (os : list (Z * oracle)) (votes : list Z) : Z :=
+  fold_right (fun v acc => vstake os v + acc) 0 votes.
+
+Lemma online_stake_le : forall l, stakes_ok l -> online_stake l <= (online_power l + online_count l) * U /\ 0 <= online_count l.
+Proof.
+  induction l as [|[k o] r IH]; intro S; [cbn; lia|].
+  assert (Sr : stakes_ok r) by (intros k2 o2 H2; apply (S k2); right; exact H2).
+  assert (So : 0 <= o_stake o) by (apply (S k); left; reflexivity).
+  destruct (IH Sr) as [I1 I2]. pose proof (power_stake_bounds o So) as B.
+  cbn [online_stake online_count]. rewrite online_power_cons. unfold ostake, opow.
+  destruct (o_online o); split; nia.
+Qed.
+
+Lemma vote_power_le_stake : forall os votes, stakes_ok os -> vote_power os votes * U <= vote_stake os votes.
+Proof.
+  intros os votes S. induction votes as [|v r IH]; [cbn; lia|].
+  change (vote_power os (v :: r)) with (vpower os v + vote_power os r).
+  change (vote_stake os (v :: r)) with (vstake os v + vote_stake os r).
+  assert (vpower os v * U <= vstake os v).
+  { unfold vpower, vstake. destruct (aget Z.eqb v os) as [o|] eqn:G; [|lia].
+    apply power_stake_bounds. apply (S v). apply (aget_In Z.eqb zeqb_spec). exact G. }
+  nia.
+Qed.
+
+(* whenever a vote makes an event take effect: 66 % of the stake of the online oracles is covered by the stake of the
+   counted voters up to (99 + 66 * number of online oracles) power units — the recorded total is in truncated
+   per-oracle units and at least the online oracles' power *)
+Theorem quorum_in_stake : forall c h b n cl park ms,
+  0 <= c_threshold c ->
+  let s := run c init h in
+  let s' := fst (vote c s b n cl park ms) in
+  last_obs s' <> last_obs s ->
+  exists a, aget keq (n, cl) (atts s') = Some a /\ a_obs a = true /\
+            66 * online_stake (oracles s) <=
+            100 * vote_stake (oracles s) (a_votes a) + (99 + 66 * online_count (oracles s)) * U.
+Proof.
+  intros c h b n cl park ms Hc s s' H.
+  destruct (quorum_at_flip c h b n cl park ms Hc H) as [a [Ga [Oa Q]]].
+  destruct (inv_total_reach c h Hc) as [N [S T]]. fold s in N, S, T, Q.
+  exists a. repeat split; auto.
+  destruct (online_stake_le _ S) as [L1 L2]. pose proof (vote_power_le_stake (oracles s) (a_votes a) S) as L3.
+  assert (0 < U) by (unfold U, power_reduction; lia). nia.
+Qed.
+
+(* exact per-oracle statement used by the harness' boundary stream: an oracle at the delegate bounds *)
+Theorem power_at_bounds :
+  power {| o_stake := fx 10000; o_online := true; o_bridger := 0; o_ext := 0; o_slash := 0; o_start := 0; o_deleg := true; o_unb := false |} = 100 /\
+  power {| o_stake := fx 100000; o_online := true; o_bridger := 0; o_ext := 0; o_slash := 0; o_start := 0; o_deleg := true; o_unb := false |} = 1000 /\
+  power {| o_stake := fx 10099; o_online := true; o_bridger := 0; o_ext := 0; o_slash := 0; o_start := 0; o_deleg := true; o_unb := false |} = 100 /\
+  power {| o_stake := fx 99999; o_online := true; o_bridger := 0; o_ext := 0; o_slash := 0; o_start := 0; o_deleg := true; o_unb := false |} = 999.
+Proof. vm_compute. repeat split; reflexivity. Qed.
